@@ -743,7 +743,26 @@ class WorkerRun(Unit):
             s = s.fork()
             log(s, 'put', box(e, a[0]))
             return [('ok', s, NONE)]
-        st.env.update(cls=Fn(cls), q_in=Rec(ex, 'q_in'), q_out=Rec(ex, 'q_out', methods={'put': Fn(put)}), init_kwargs=KwPack(z3.Const('kw', Val)))
+        class InitKwargs(Obj):
+            """the dict init_kwargs: passed on as **init_kwargs; an entry read from it is an opaque value"""
+            pack = KwPack(z3.Const('kw', Val))
+
+            def havoc(self_, e, s):
+                pass
+
+            def m_get(self_, e, s, a, k, n):
+                return [('ok', s, z3.Const('init_kwargs_entry_' + (a[0].as_string() if z3.is_string_value(a[0]) else 'x'), Val))]
+
+            def getitem(self_, e, s, idx, n):
+                return self_.m_get(e, s, [idx], {}, n)
+
+            def as_kwpack(self_, e, s):
+                return self_.pack
+        # anything the OS refuses (an invalid CPU id ...) raises: also before the object exists
+        oserr = z3.Const('os_error', Val)
+        st.assume(V.isinst(oserr, 'OSError'), *V.cls_facts(oserr))
+        ex.globals['os.sched_setaffinity'] = Fn(lambda e, s, a, k, n: [('ok', s, NONE), ('raise', s.fork(), oserr)], trusted='os.sched_setaffinity raises OSError for a CPU set the machine cannot honour')
+        st.env.update(cls=Fn(cls), q_in=Rec(ex, 'q_in'), q_out=Rec(ex, 'q_out', methods={'put': Fn(put)}), init_kwargs=InitKwargs(ex, 'init_kwargs'))
         return st
 
     def post(self, ex, outs):
@@ -753,7 +772,8 @@ class WorkerRun(Unit):
                 ex.oblige(s, 'exit: handshake: a worker that initialised puts its (non-None) name first, then runs its service loop',
                           z3.And(self.init_ok, z3.BoolVal(len(lg) == 2 and lg[0][0] == 'put' and lg[1][0] == 'start'), lg[0][1] != NONE if len(lg) == 2 else z3.BoolVal(False)))
             else:
-                ex.oblige(s, 'exit(raise): handshake: a worker whose __init__ failed puts None (exactly that) and re-raises the init error',
+                ex.oblige(s, 'exit(raise): handshake: a worker that fails before its service loop -- in __init__ or anywhere earlier in this process -- puts None (exactly that) and re-raises the error: '
+                             'the parent blocks on this message (ProcessServlet.start), so a worker dying silently would hang Server.__enter__ with the earlier workers left running',
                           z3.And(z3.Not(self.init_ok), p == self.err, z3.BoolVal(len(lg) == 1 and lg[0][0] == 'put'), lg[0][1] == NONE if len(lg) == 1 else z3.BoolVal(False)))
 
 
@@ -856,7 +876,76 @@ class EnterServerThreadQ(EnterServer):
     in_type = 'thread'
     canaries = ()
 
+class ServerEnterUnit(Unit):
+    """Server.__enter__ / AsyncServer.__aenter__: every entry makes its OWN not-full condition (and, async, its own empty table of pending notifications) BEFORE the
+    helper threads are started by _enter_server -- they read it -- and hands _enter_server this server (async: plus the RUNNING loop, the one the asyncio.Condition
+    made here belongs to: a server object entered again under another loop must not wait on a condition bound to the first)."""
+    prop = 'C11'
+    file = FV
+    qual = 'Server.__enter__'
+    is_async = False
+    canaries = (('condition made after the helper threads were started', '        self._pipeline_notfull = threading.Condition()\n        _enter_server(self)', '        _enter_server(self)\n        self._pipeline_notfull = threading.Condition()', ''),)
+
+    def setup(self, ex):
+        st = St()
+        self.me = Rec(ex, 'self')
+        self.old_cond = Rec(ex, 'condition of an earlier entry', immutable=True)
+        self.me.init(st, _pipeline_notfull=self.old_cond)         # whatever an earlier entry (or the constructor) left there
+        st.env['self'] = self.me
+        st.ghost['log'] = ()
+        unit = self
+
+        def cond(e, s, a, k, n):
+            c = Rec(e, 'fresh condition', immutable=True)
+            s = s.fork()
+            s.ghost['log'] = s.ghost['log'] + (('cond', c),)
+            return [('ok', s, c)]
+
+        def enter(e, s, a, k, n):
+            s = s.fork()
+            conds = [x[1] for x in s.ghost['log'] if x[0] == 'cond']
+            cur = unit.me.get(s, '_pipeline_notfull')
+            notifs = unit.me.get(s, '_pipeline_notfull_notifications') if unit.me.has(s, '_pipeline_notfull_notifications') else None
+            extra = unbox_handle(e, a[1]) if len(a) > 1 else None
+            s.ghost['log'] = s.ghost['log'] + (('enter', unbox_handle(e, a[0]) is unit.me, any(cur is c for c in conds), notifs, extra),)
+            exc = z3.Const('start_error', Val)
+            s2 = s.fork().assume(V.isinst(exc, 'BaseException'), *V.cls_facts(exc))
+            return [('ok', s, NONE), ('raise', s2, exc)]
+        ex.globals['threading'] = Module('threading')
+        ex.globals['threading.Condition'] = Fn(cond)
+        ex.globals['asyncio'] = Module('asyncio')
+        ex.globals['asyncio.Condition'] = Fn(cond)
+        self.loop = Rec(ex, 'running loop', immutable=True)
+        ex.globals['asyncio.get_running_loop'] = Fn(lambda e, s, a, k, n: [('ok', s, self.loop)])
+        ex.globals['_enter_server'] = Fn(enter)
+        return st
+
+    def post(self, ex, outs):
+        from pyvc.vals import PyTuple
+        for k, s, p in outs:
+            ent = [x for x in s.ghost['log'] if x[0] == 'enter']
+            ok = len(ent) == 1 and ent[0][1] and ent[0][2]
+            if ok and self.is_async:
+                notifs, extra = ent[0][3], ent[0][4]
+                ok = isinstance(notifs, DictVal) and not notifs.items and notifs.pack is None and isinstance(extra, PyTuple) and len(extra.items) == 1 and unbox_handle(ex, extra.items[0]) is self.loop
+            elif ok:
+                ok = ent[0][4] is None
+            ex.oblige(s, 'exit: _enter_server(self' + (', (running loop,)' if self.is_async else '') + ') is called exactly once, and at that moment self._pipeline_notfull is a condition created by THIS entry'
+                         + (' (so it belongs to the running loop) and the table of pending notifications is a new empty dict' if self.is_async else ''), z3.BoolVal(bool(ok)))
+            if k in ('normal', 'return'):
+                ex.oblige(s, 'exit: returns the server itself', z3.BoolVal(unbox_handle(ex, p) is self.me))
+            else:
+                ex.oblige(s, 'exit(raise): only what _enter_server raised (nothing else was started: unit _enter_server)', p == z3.Const('start_error', Val))
+
+
+class AServerEnterUnit(ServerEnterUnit):
+    qual = 'AsyncServer.__aenter__'
+    is_async = True
+    canaries = (('condition kept from an earlier entry (another event loop)', '        self._pipeline_notfull = asyncio.Condition()\n', '', ''),
+                ('pending notifications of an earlier entry kept', '        self._pipeline_notfull_notifications = {}\n', '', ''))
+
+
 from contracts.ctors import SERVLET_CTORS      # noqa: E402
 UNITS = list(SERVLET_CTORS) + [EnterServer, EnterServerThreadQ, SimpleStart, ThreadStart, SimpleStop, ThreadStop, CompoundStart, EnsembleStart, SwitchStart, CompoundStop, SwitchStop, SequentialStop,
-         ServerExit, ServerExitThreadQ, AServerExit, OnboardUnit, WorkerRun]
+         ServerExit, ServerExitThreadQ, AServerExit, OnboardUnit, WorkerRun, ServerEnterUnit, AServerEnterUnit]
 SCENARIOS = [('', 'replay/scenarios/c11_init_failure_cleanup.py'), ('', 'replay/scenarios/c11_abandoned_stream_exit.py')]
